@@ -63,6 +63,12 @@ pub struct Error {
     info: Info,
 }
 
+impl Error {
+    pub(crate) fn is_error(&self) -> bool {
+        self.severity == Severity::Error
+    }
+}
+
 impl ReadXml for Error {
     #[tracing::instrument(skip_all, fields(tag = ?start.local_name()), level = "debug")]
     fn read_xml(reader: &mut NsReader<&[u8]>, start: &BytesStart<'_>) -> Result<Self, ReadError> {
